@@ -442,6 +442,33 @@ def _():
     return G.emit_strings('p_kmeans', rows, 'k-means dataflow (pinned shape)')
 
 
+@item('p_mask')
+def _():
+    """masking dataflow (pinned shape): mask replication into the flattened (codebook, tokens) layout, one-hot zeroing, valid-token
+    selection for k-means / expiry, loss masks, output / index fill at padded positions, lens -> mask"""
+    rows = ['lens_to_mask:' + ast.unparse(return_expr(VQ, 'lens_to_mask')) + ' ; seq=' + ast.unparse(assigned_expr(VQ, 'lens_to_mask', 'seq'))]
+    for cls in ('EuclideanCodebook', 'CosineSimCodebook'):
+        f = find_func(VQ, f'{cls}.forward')
+        rows += [f'{cls}.forward:' + ast.unparse(n) for n in ast.walk(f) if isinstance(n, ast.Assign) and ast.unparse(n.targets[0]) in ('mask', 'embed_onehot[~mask]')]
+        rows += [f'{cls}.forward:' + ast.unparse(n) for n in ast.walk(f) if isinstance(n, ast.Call) and G.call_name(n) in ('self.init_embed_', 'self.expire_codes_')]
+        for q in ('init_embed_', 'expire_codes_'):
+            g = find_func(VQ, f'{cls}.{q}')
+            rows += [f'{cls}.{q}:' + ast.unparse(n) for n in ast.walk(g) if isinstance(n, ast.Assign) and 'mask' in ast.unparse(n.value)]
+    f = find_func(VQ, 'VectorQuantize.forward')
+    for n in ast.walk(f):
+        if isinstance(n, ast.Assign) and ast.unparse(n.targets[0]) in ('mask', 'loss_mask', 'ce_loss_mask', 'masked_out_value', 'unique_code_ids'):
+            rows.append('vq.forward:' + ast.unparse(n))
+        if isinstance(n, ast.Call) and G.call_name(n) in ('einx.where', 'embed_ind.masked_fill_'):
+            rows.append('vq.forward:' + ast.unparse(n).replace('\n', ' '))
+        if isinstance(n, ast.Assign) and ast.unparse(n.targets[0]) in ('loss', 'commit_loss') and 'mask' in ast.unparse(n.value):
+            rows.append('vq.forward:' + ast.unparse(n))
+    ce = find_func(VQ, 'VectorQuantize.forward.calculate_ce_loss')
+    rows += ['vq.ce:' + ast.unparse(n).replace('\n', ' ') for n in ast.walk(ce) if isinstance(n, ast.Call) and G.call_name(n) == 'F.cross_entropy']
+    lf = find_func(LFQF, 'LFQ.forward')
+    rows += ['lfq.forward:' + ast.unparse(n) for n in ast.walk(lf) if isinstance(n, ast.Assign) and 'mask]' in ast.unparse(n.value)]
+    return G.emit_strings('p_mask', rows, 'masking dataflow (pinned shape)')
+
+
 # =============================================================================== inventories (G4)
 for fname, cls, tag in ((VQ, 'EuclideanCodebook', 'euclid'), (VQ, 'CosineSimCodebook', 'cosine'), (VQ, 'VectorQuantize', 'vq'),
                         (FSQF, 'FSQ', 'fsq'), (LFQF, 'LFQ', 'lfq'), (SIMVQ, 'SimVQ', 'simvq'), (RPQ, 'RandomProjectionQuantizer', 'rpq'),
